@@ -1297,7 +1297,7 @@ impl EcmaRegexValidator {
   fn eat_decimal_escape(&mut self) -> bool {
     self.last_int_value = 0;
     if let Some(cp) = self.code_point_with_offset(0) {
-      if cp.is_ascii_digit() {
+      if cp.is_ascii_digit() && cp != '0' {
         self.last_int_value =
           10 * self.last_int_value + cp.to_digit(10).unwrap() as i64;
         self.advance();
